@@ -3,10 +3,10 @@ from .fam_valid import Valid
 from .fam_be import Be
 from .fam_seg import Seg
 from .fam_iovs import Iovs
-from .fam_fe import Fe
+from .fam_fe import Fe, FeTrunc
 from .fam_sess import Sess
 from .fam_tx import Tx
-from .fam_proxy import Fsrv, Proxy, Psess
+from .fam_proxy import Fsrv, Proxy, Psess, ProxyTrunc
 from .fam_dmn import Dmn
 from .fam_shut import Shut
 from .fam_kern import Kern
@@ -73,8 +73,9 @@ reg(id="C09", props="Props/C09.v", proof_files=["Proofs/BeProofs.v"], families=[
     trusted_base=BE_TB, assumptions=BE_ASSUME + ["the kernel disposes of SCM_RIGHTS descriptors that were never received when the socket is closed"])
 
 reg(id="C08", props="Props/C08.v", proof_files=["Proofs/TransportProofs.v", "Proofs/FramingProofs.v"],
-    families=[Seg(), Iovs(), Tx()],
-    rule="family seg: clean request histories (as family be) where one message is delivered under every 2-split at characteristic "
+    families=[Seg(), Iovs(), Tx(), FeTrunc(), ProxyTrunc()],
+    rule="family fe (truncated-reply cases only): a negotiated session, then every reply-bearing and acknowledged frontend operation whose conformant "
+         "reply ends at offsets 0, 1, 11, 12, 13, 20, 23, 24, 25, len-1, random followed by the peer closing: the call must fail. family proxy (truncated-ack cases only): every proxy operation, the zero acknowledgement cut at every offset 0..19. family seg: clean request histories (as family be) where one message is delivered under every 2-split at characteristic "
          "offsets (1, 11, 12, 13, len-1, random), random 3-splits, byte-by-byte, and all messages split at the header boundary, "
          "forced deterministically by the interposed recvmsg; and the stream cut at offsets 0, 1, 11, 12, 13, len-1, random of a "
          "message followed by end-of-stream; each case runs the real server twice (whole / variant). family iovs: "
@@ -113,7 +114,7 @@ DMN_TB = ["hand model Model/Daemon.v of the daemon's control plane, epoll regist
           "Spec/DaemonSpec.v: my transcription of the ring life-cycle and routing rules from the property text"]
 DMN_ASSUME = ["level-triggered epoll; eventfd counter semantics; an epoll registration outlives close() while another descriptor of the same open file exists",
               "std::sync lock mutual exclusion"]
-reg(id="C11", props="Props/C11.v", proof_files=["Proofs/DaemonProofs.v", "Proofs/RingInvProofs.v"], families=[Dmn()], rule=DMN_RULE, trusted_base=DMN_TB, assumptions=DMN_ASSUME)
+reg(id="C11", props="Props/C11.v", proof_files=["Proofs/DaemonProofs.v", "Proofs/RingInvProofs.v", "Proofs/CtlProofs.v"], families=[Dmn()], rule=DMN_RULE, trusted_base=DMN_TB, assumptions=DMN_ASSUME)
 reg(id="C17", props="Props/C17.v", proof_files=["Proofs/DaemonProofs.v"], families=[Dmn()], rule=DMN_RULE, trusted_base=DMN_TB, assumptions=DMN_ASSUME)
 MEM_RULE = (DMN_RULE + " || memory histories: SET_MEM_TABLE with 1..8 regions (sorted, unordered, duplicate, overlapping, unaligned mmap offsets), "
             "ADD_MEM_REG / REM_MEM_REG (absent, size-mismatched, shifted), user ranges across the 64-bit space, guest-side pwrite/pread on the shared files, "
@@ -165,7 +166,7 @@ RACE_RULE = ("family race: one ring, one worker, a real daemon built with hold p
              "the ordered log of kicks, control starts, replies and handler entries plus the kick counter left; judged by Spec/RaceSpec.v")
 RACE_TB = ["hand model Model/Race.v of event_loop.rs run()/handle_event, vring.rs read_kick and the enable/stop/reset control paths, tied by family race",
            "Spec/RaceSpec.v: my transcription of C12 over schedule logs", "the hold-point hooks (vhost::vhost_user::verif_hooks::hold) park the thread and change nothing else"]
-reg(id="C12", props="Props/C12.v", proof_files=["Proofs/RaceBase.v", "Proofs/RaceProofs.v"], families=[Race()], rule=RACE_RULE, trusted_base=RACE_TB,
+reg(id="C12", props="Props/C12.v", proof_files=["Proofs/RaceBase.v", "Proofs/RaceProofs.v", "Proofs/CtlRaceProofs.v"], families=[Race()], rule=RACE_RULE, trusted_base=RACE_TB,
     assumptions=DMN_ASSUME)
 CONC_RULE = ("family conc: 2..3 threads released together, each calling one operation (reply-bearing get_vring_base / get_queue_num / get_features, acknowledged "
              "set_vring_num, unacknowledged set_vring_base; shared_object_add on the Backend proxy; get_protocol_features on the GpuBackend) through clones of one endpoint, "
